@@ -180,6 +180,20 @@ pub fn gen_forge(thorough: bool, rng: &mut Rng) -> Result<(), String> {
                     json!({"kind": "revealed_predicate", "pred_index": 0, "value": v, "m_tilde": draw(rng, 592)}), false,
                     json!({"kind": "unlinked", "layout": "predicate on a revealed attribute, dummy response added", "npred": 1, "def": name}), rng));
             }
+            // ---- (b6) a value proven hidden and CLAIMED revealed: the verifier asks to see `name`, the holder proves with it
+            //      hidden and writes a made-up value into revealed_attrs, compensating in m[name]; the verifier must take the
+            //      hidden exponents from its own request, not from the keys of eq_proof.m
+            {
+                let attr = cd.attrs[0].clone();
+                let prover_req = ReqSpec { revealed: vec![], predicates: vec![] };
+                let verifier_req = ReqSpec { revealed: vec![attr.clone()], predicates: vec![] };
+                let mut cj = case(format!("forge/{}/fake_revealed", k), name, cd, sig.clone(), &hv, &prover_req, 456,
+                    json!({"kind": "fake_revealed", "attr": attr, "fake": draw(rng, 60)}), false,
+                    json!({"kind": "fake_revealed", "attr": attr, "def": name}), rng);
+                cj["in"]["verifier_req"] = verifier_req.to_json();
+                cj["impl"]["exec"]["in"]["req"] = verifier_req.to_json();
+                emit(&cj);
+            }
             // ---- (b4) a hidden value split into a hidden part and an UNREQUESTED revealed entry: the parts recombine in the
             //      verification equation, only the comparison of the revealed set with the request refuses it
             for (si, attr) in ["master_secret", "age"].iter().enumerate() {
